@@ -267,7 +267,9 @@ impl Sys {
         match self.reg.dispatch(ptr, body.cloned()) {
             Ok(v) => {
                 if body.is_none() {
-                    if model_says_fn_read { Out::FnDescriptor } else { Out::Val(v) }
+                    // reading a callable's pointer describes the function (pinned by the crate's own tests as
+                    // {"type":"function",..}), whatever value may sit under the same pointer in the document
+                    if model_says_fn_read && v.get("type").and_then(|t| t.as_str()) == Some("function") { Out::FnDescriptor } else { Out::Val(v) }
                 } else if is_write_ok(&v) {
                     Out::Written
                 } else {
@@ -525,6 +527,9 @@ fn check_mount(rep: &mut Report, r: &mut Rng, case: u64) {
         let mut b = Message::builder().id(j as u64 + 1).query_str(&path).query_format(QueryFormat::JsonPointer);
         if let Some(v) = &body {
             b = b.body_json(v).unwrap();
+        } else {
+            // an empty body is a read whatever its body-format code says
+            b = b.body_format_code(*r.pick(&[0u16, 1, 2, 3, 3, 77]));
         }
         let req = b.build();
         let resp = match catching(|| h.handle(&req)) {
